@@ -274,6 +274,9 @@ impl<'b, 'a: 'b> FmtVisitor<'a> {
         };
 
         for (kind, offset, sub_slice) in CommentCodeSlices::new(comment_snippet) {
+            // (positions in the source are counted on the slice as it is in the source, not on
+            // its coverage rendering, where every character is one byte)
+            let source_len = sub_slice.len();
             let sub_slice = transform_missing_snippet(config, sub_slice);
 
             debug!("close_block: {:?} {:?} {:?}", kind, offset, sub_slice);
@@ -359,7 +362,7 @@ impl<'b, 'a: 'b> FmtVisitor<'a> {
             }
             prev_ends_with_newline = sub_slice.ends_with('\n');
             extra_newline = false;
-            last_hi = span.lo() + BytePos::from_usize(offset + sub_slice.len());
+            last_hi = span.lo() + BytePos::from_usize(offset + source_len);
         }
         if unindented {
             self.block_indent = self.block_indent.block_indent(self.config);
